@@ -23,7 +23,7 @@ META = {
     'level_text': (
         'Runtime oracle: for each program shape (main of tagged PRINTs with KEY(n)/TIMER/PEN/STRIG ON|OFF|STOP at chosen '
         'points, handlers printing enter/leave tags and optionally turning their event ON/OFF, raising a trapped '
-        'error or ENDing, optional ON ERROR handler with RESUME NEXT) and each schedule, the trace printed by the real '
+        'error, re-executing their ON <event> GOSUB or ENDing; ON <event> GOSUB re-executed in the main part after ON / after STOP; optional ON ERROR handler with RESUME NEXT) and each schedule, the trace printed by the real '
         'interpreter must equal a trace accepted by the automaton written from the statement. All schedules up to the '
         'stated bound are enumerated; seeded random programs/schedules of the same family are added on top.'),
     'level_note': (
@@ -43,18 +43,19 @@ META = {
     'assumptions': ['events reach the engine only at EventQueues.check_events (one per statement)',
                     'one program statement per line, so boundary k+1 of RUN precedes the k-th executed statement'],
     'exhaustive': {
-        'quick': ('for each of the 27 quick program shapes of shape_list() (24 single-trap (main, handler) combinations over KEY/TIMER/PEN/STRIG, '
-                  '3 two-trap shapes; 27402 schedules): ALL placements of at most 3 '
+        'quick': ('for each of the 32 quick program shapes of shape_list() (29 single-trap (main, handler) combinations over KEY/TIMER/PEN/STRIG, '
+                  '3 two-trap shapes; 30282 schedules): ALL placements of at most 3 '
                   'occurrences over (trap, position) slots, position = before statement boundary 1..14 or after END, no two '
                   'occurrences of one trap at one position'),
-        'thorough': ('for every (main, handler) combination of the single-trap family (10 x 8) with 2 event kinds each, the 6 two-trap shapes '
-                     'and the 2 three-trap shapes (168 shapes, 830588 schedules): ALL placements of at most 4 occurrences over (trap, position) slots, position = '
+        'thorough': ('for every (main, handler) combination of the single-trap family (12 x 9) with 2 event kinds each, the 6 two-trap shapes '
+                     'and the 2 three-trap shapes (224 shapes, 939284 schedules): ALL placements of at most 4 occurrences over (trap, position) slots, position = '
                      'before statement boundary 1..14 or after END, no two occurrences of one trap at one position'),
     },
     'require_counters': {'any': ['handler_entries_observed', 'occurrences_lost_while_off', 'occurrences_remembered_during_stop',
                                  'entries_after_stop_then_on', 'occurrences_remembered_while_handler_runs',
                                  'occurrences_during_error_handler', 'reentries_after_on_inside_handler',
-                                 'occurrences_after_program_end', 'simultaneous_firings']},
+                                 'occurrences_after_program_end', 'simultaneous_firings',
+                                 'on_event_gosub_reexecuted_while_stopped_pending_or_in_handler']},
     'timeout': {'quick': 900, 'thorough': 10800},
 }
 
@@ -96,6 +97,9 @@ MAINS = {
     'onoff': (lambda x: [ctl(x, 'ON'), 't', 't', ctl(x, 'OFF'), 't', 't', 't'], False),
     'flip': (lambda x: [ctl(x, 'ON'), ctl(x, 'STOP'), 't', ctl(x, 'ON'), ctl(x, 'STOP'), 't', ctl(x, 'ON'), 't'], False),
     'never': (lambda x: ['t', 't', 't', 't'], False),
+    # ON <event> GOSUB executed again (same line): after ON, and after STOP
+    'redef_on': (lambda x: [ctl(x, 'ON'), 't', ['redef', x], 't', 't', 't'], False),
+    'redef_stop': (lambda x: [ctl(x, 'ON'), 't', ctl(x, 'STOP'), ['redef', x], 't', 't', ctl(x, 'ON'), 't'], False),
 }
 
 HANDLERS = {
@@ -107,6 +111,8 @@ HANDLERS = {
     'offon': (lambda x: [T(x + '<'), ctl(x, 'OFF'), ctl(x, 'ON'), T(x + '>'), ['ret']], False),
     'end': (lambda x: [T(x + '<'), ['end']], False),
     'long': (lambda x: [T(x + '<'), T(x.lower() + '1'), T(x.lower() + '2'), T(x + '>'), ['ret']], False),
+    # the handler re-executes its own ON <event> GOSUB: that is not turning the event back ON
+    'redef': (lambda x: [T(x + '<'), ['redef', x], T(x.lower() + '1'), T(x + '>'), ['ret']], False),
 }
 
 ERRH = [T('E<'), T('E>'), ['resume']]
@@ -185,7 +191,8 @@ def shape_list(tier):
         combos = [('plain', 'h0'), ('plain', 'on'), ('plain', 'off'), ('plain', 'long'), ('offon', 'h0'), ('offon', 'min'),
                   ('stopon', 'h0'), ('stopon', 'on'), ('stopoffon', 'h0'), ('err', 'h0'), ('err', 'err'), ('stoperr', 'h0'),
                   ('early', 'h0'), ('early', 'end'), ('onoff', 'offon'), ('flip', 'h0'), ('flip', 'min'), ('never', 'h0'),
-                  ('plain', 'err'), ('stopon', 'off'), ('onoff', 'h0'), ('plain', 'end'), ('stoperr', 'on'), ('offon', 'long')]
+                  ('plain', 'err'), ('stopon', 'off'), ('onoff', 'h0'), ('plain', 'end'), ('stoperr', 'on'), ('offon', 'long'),
+                  ('redef_on', 'h0'), ('redef_stop', 'h0'), ('plain', 'redef'), ('stopon', 'redef'), ('redef_stop', 'redef')]
         for i, (m, h) in enumerate(combos):
             shapes.append((single_shape(m, h, KIND_CYCLE[i % 4]), 3))
         shapes.append((multi_shape('2a', ['K', 'T']), 3))
@@ -259,7 +266,7 @@ def to_basic(prog):
     out = []
     for i, st in enumerate(stmts):
         op = st[0]
-        if op == 'def':
+        if op in ('def', 'redef'):
             if st[1] == 'E':
                 text = b'ON ERROR GOTO %d' % line_of(estart)
             else:
@@ -402,6 +409,8 @@ STAT_COUNTERS = [
     ('pending_at_off', 'remembered_occurrence_at_off_unpinned'),
     ('unpinned_stop_while_off', 'occurrences_during_stop_while_off_unpinned'),
     ('coalesced', 'occurrences_coalesced_into_one_remembered'),
+    ('redefinitions', 'on_event_gosub_reexecuted'),
+    ('redefinitions_in_nontrivial_state', 'on_event_gosub_reexecuted_while_stopped_pending_or_in_handler'),
 ]
 
 
@@ -470,6 +479,8 @@ def gen_program(rng, idx):
         elif r < 0.52 and use_err and nerr < 2:
             body.append(ERR)
             nerr += 1
+        elif r < 0.58:
+            body.append(['redef', rng.choice(kinds)])
         else:
             k = rng.choice(kinds)
             # STOP only while statically ON (a handler may still have turned the event OFF: the model copes)
@@ -482,7 +493,7 @@ def gen_program(rng, idx):
     handlers = {}
     hnames = []
     for k in kinds:
-        opts = ['h0', 'h0', 'on', 'off', 'min', 'offon', 'long', 'end'] + (['err'] if use_err else [])
+        opts = ['h0', 'h0', 'on', 'off', 'min', 'offon', 'long', 'redef', 'end'] + (['err'] if use_err else [])
         hn = rng.choice(opts)
         if hn == 'end' and rng.random() < 0.7:
             hn = 'h0'
@@ -540,6 +551,9 @@ def directed(rig, res):
     D.append(('timer-off-lost', P('offon', 'h0', 'T'), {6: ['T']}))
     D.append(('pen', P('stopon', 'h0', 'P'), {5: ['P']}))
     D.append(('strig', P('plain', 'off', 'S'), {3: ['S'], 7: ['S']}))
+    D.append(('redef-in-handler-no-reentry', P('plain', 'redef', 'K'), {3: ['K'], 5: ['K']}))
+    D.append(('redef-after-stop-stays-stopped', P('redef_stop', 'h0', 'K'), {7: ['K']}))
+    D.append(('redef-keeps-remembered-occurrence', P('redef_stop', 'h0', 'S'), {5: ['S']}))
     D.append(('two-simultaneous', multi_shape('2a', ['K', 'T']), {5: ['K', 'T']}))
     for tag, prog, sched in D:
         rig.load(prog)
